@@ -301,7 +301,8 @@ Definition render (its : list item) : list imp :=
 
 (* Python's sorted() on (obj, alias) pairs compares None with str when one object is imported both
    plain and aliased from the same module; `from __future__` items would be placed before the block.
-   Both are outside the modelled domain (MonkeyType's stubs have neither). *)
+   `import m as a` items go through a dict keyed by module (the last alias wins).
+   All are outside the modelled domain (MonkeyType's stubs import only `from m import a, b`). *)
 Fixpoint dup_fst (l : list name) : bool :=
   match l with
   | [] => false
@@ -309,7 +310,9 @@ Fixpoint dup_fst (l : list name) : bool :=
   end.
 Definition in_domain (its : list item) : bool :=
   forallb (fun it => negb (String.eqb (i_mod it) "__future__")
-                     && negb (dup_fst (from_names (i_mod it) its))) its.
+                     && negb (dup_fst (from_names (i_mod it) its))
+                     && negb (is_rel (i_mod it))
+                     && match i_obj it, i_alias it with None, Some _ => false | _, _ => true end) its.
 
 (* ---------------------------------------------------------------- _add_if_type_checking_block / _split_module *)
 Definition is_simp (s : stmt) : bool := match s with SImp _ => true | _ => false end.
@@ -370,6 +373,13 @@ Definition runtime_needed (src m : module) : list string :=
                          if smemb n (class_names src) then []
                          else filter (fun b => negb (smemb b (class_names m))) bs
                      | _ => [] end) m.
+
+(* modelled-libcst assumption: what generated classes need is imported at run-time level by the apply step,
+   from a module that confinement leaves at run time *)
+Definition needed_okb (src applied : module) : bool :=
+  forallb (fun b => existsb (fun it => String.eqb (item_bound it) b && runtime_module (i_mod it))
+                            (run_items applied))
+          (runtime_needed src applied).
 
 (* ---------------------------------------------------------------- the specification's vocabulary *)
 Definition future_head_body (m : module) : bool :=
